@@ -827,6 +827,14 @@ func (fr *Frame) backEdge(li *loopInfo, u *ssa.BasicBlock, reach string, st *Sta
 		}
 	}
 	phiVal := func(phi *ssa.Phi) Term { return fr.val(phi.Edges[idx]) }
+	// anchors "end of loop N": lemmas about the state an iteration leaves behind, stated before the invariant is
+	// re-established (assert-then-assume, like any anchored clause)
+	if fr.contract != nil && len(fr.contract.Asserts) > 0 {
+		save := fr.curBlock
+		fr.curBlock = u
+		fr.anchor(fmt.Sprintf("end of loop %d", li.ord), &blockCtx{st: st, reach: reach}, nil)
+		fr.curBlock = save
+	}
 	// ghost updates
 	ghostNext := map[string]Binding{}
 	for k, v := range li.ghostCur {
